@@ -445,7 +445,7 @@ func checkRm(w *core.World, st *core.Step) {
 }
 
 func runC04(c *core.Ctx) {
-	n := c.Pick(120, 3000)
+	n := c.Pick(500, 4000)
 	c.RunHistories(n, Registry["C04"].Mons, func(w *core.World) {
 		wts := map[string]int{
 			"edit-new": 14, "edit-mod": 10, "edit-rm": 8, "edit-rmdir": 4, "edit-same": 2, "edit-touch": 1,
